@@ -782,4 +782,31 @@ def replay(w):
         cache_experiment(part)
         bad = [k for k in part.viols if w['config'] in k]
         return bool(bad), str([part.viols[k][1] for k in bad])
-    return False, 'see the witness'
+    if 'hex' in w and 'addr' in w:
+        X = c.X
+        addr, hx = w['addr'], w['hex']
+        with core.quiet_stdout():
+            i = c.ia32.x86mnemo.dis(bytes.fromhex(hx))
+            e = X.ExprInt32(addr)
+            fresh = [str(x) for x in c.eh.get_instr_expr(c.ia32.x86mnemo.dis(bytes.fromhex(hx)), X.ExprInt32(addr), [])]
+            got = [str(x) for x in c.eh.get_instr_expr(i, e, [])]
+        now = (type(e.arg).__name__, int(e.arg))
+        return now != ('uint32', addr) or got != fresh, 'address object after lifting %s: %s(%#x); lift %s' % (hx, now[0], now[1], got[:3])
+    if 'tree' in w and 'api' in w:
+        part = core.Part()
+        from .. import irsem
+
+        def tup(x):
+            return tuple(tup(i) for i in x) if isinstance(x, list) else x
+        t = tup(w['tree'])
+        e = irsem.from_neutral(t)
+        before = irsem.to_neutral(e)
+        try:
+            {'expr_simp': lambda: c.H.expr_simp(e), 'copy': e.copy, 'canonize': e.canonize, 'get_r': lambda: e.get_r(mem_read=True),
+             'replace_expr': lambda: e.replace_expr({}), 'eval_expr': lambda: c.EA.eval_abs({}, log=c.log).eval_expr(e, {})}[w['api']]()
+        except Exception:
+            pass
+        after = irsem.to_neutral(e)
+        return after != before, '%s: before %s, after %s' % (w['api'], irsem.show(before), irsem.show(after))
+    return False, 'no stand-alone replay for this witness kind: re-run the check'
+
